@@ -10,7 +10,12 @@ where
     R: AsyncRead + Unpin,
 {
     match read_header(reader, &mut container.header).await? {
-        0 => Ok(0),
+        0 => {
+            // The EOF container is only complete with its body.
+            let mut body = [0; crate::io::reader::container::header::EOF_LENGTH];
+            reader.read_exact(&mut body).await?;
+            Ok(0)
+        }
         len => {
             container.src.resize(len, 0);
             reader.read_exact(&mut container.src).await?;
